@@ -10,7 +10,7 @@ import tempfile
 import time
 import z3
 
-QUICK = dict(rlimit=2_000_000_000, wall_ms=15_000, cli_s=15)
+QUICK = dict(rlimit=2_000_000_000, wall_ms=8_000, cli_s=8)
 THOROUGH = dict(rlimit=2_000_000_000, wall_ms=120_000, cli_s=120)
 
 
